@@ -294,7 +294,7 @@ func (r *atlasRun) hostNames() []string {
 }
 
 func (r *atlasRun) script() *AtlasScript {
-	s := &AtlasScript{Public: atlasPub, Private: atlasPriv, ClusterUnauth: r.Cluster.Un, ClusterAuth: r.Cluster.Au, ClusterRetry: r.Cluster.Retry, KillAtRequest: r.KillAt, Hosts: map[string]*HostScript{}}
+	s := &AtlasScript{Public: atlasPub, Private: r.priv(), ClusterUnauth: r.Cluster.Un, ClusterAuth: r.Cluster.Au, ClusterRetry: r.Cluster.Retry, KillAtRequest: r.KillAt, Hosts: map[string]*HostScript{}}
 	var ports []bool
 	for _, h := range r.Hosts {
 		ports = append(ports, h.Port)
@@ -505,7 +505,7 @@ func execAtlasLib(r *atlasRun, dir string) *atlasObs {
 			}
 		}()
 		client := NewAtlasClient(nil)
-		files, err := client.DownloadClusterLogs(context.Background(), atlasPub, atlasPriv, atlasProject, atlasCluster, start, end)
+		files, err := client.DownloadClusterLogs(context.Background(), atlasPub, r.priv(), atlasProject, atlasCluster, start, end)
 		if err != nil {
 			o.Err, o.Exit = err.Error(), 1
 			return
@@ -581,14 +581,24 @@ func execAtlasCLI(c *Ctx, r *atlasRun, dir string) (*atlasObs, error) {
 	}
 	switch {
 	case r.KeySupply == 0 || r.KeySupply == 3:
-		args = append(args, "--atlasPrivateKey", atlasPriv)
+		args = append(args, "--atlasPrivateKey", r.priv())
 	case r.KeySupply == 4 || r.KeySupply == 5:
-		args = append(args, "--atlasPrivateKey="+atlasPriv) // one argv element
+		args = append(args, "--atlasPrivateKey="+r.priv()) // one argv element
 	default:
-		env = append(env, "ATLAS_PRIVATE_KEY="+atlasPriv)
+		env = append(env, "ATLAS_PRIVATE_KEY="+r.priv())
 	}
 	if r.Window {
 		args = append(args, "--atlasLogStartDate", strconv.Itoa(winStart), "--atlasLogEndDate", strconv.Itoa(winEnd))
+	}
+	if !r.Window {
+		// the default window is computed from the clock: two of three such runs live in a local time zone whose offset
+		// changed three days ago (forward / backward by an hour) - seven days are 604 800 seconds there as well
+		switch (len(r.Hosts) + r.KeySupply + len(r.Cluster.Un)) % 3 {
+		case 1:
+			env = append(env, "TZ="+writeTZif(filepath.Join(dir, "zone-forward"), time.Now().Unix()-3*86400, 3600, 7200))
+		case 2:
+			env = append(env, "TZ="+writeTZif(filepath.Join(dir, "zone-back"), time.Now().Unix()-3*86400, -4*3600, -5*3600))
+		}
 	}
 	keyPath := filepath.Join(dir, "enc.key")
 	switch atlasKeyStates[r.KeyState] {
@@ -720,17 +730,50 @@ func reqSummary(rs []AtlasReq) string {
 	return strings.Join(p, " ")
 }
 
-// keyForms: the encodings of the private key that must never show up anywhere.
-func keyForms() map[string]string {
-	return map[string]string{
-		"verbatim":        atlasPriv,
-		"url-encoded":     url.QueryEscape(atlasPriv),
-		"path-escaped":    url.PathEscape(atlasPriv),
-		"base64":          base64.StdEncoding.EncodeToString([]byte(atlasPriv)),
-		"base64url":       base64.URLEncoding.EncodeToString([]byte(atlasPriv)),
-		"basic-auth-pair": base64.StdEncoding.EncodeToString([]byte(atlasPub + ":" + atlasPriv)),
-		"json-escaped":    strings.Trim(func() string { b, _ := json.Marshal(atlasPriv); return string(b) }(), `"`),
+// atlasPrivPlain: the shape a real Atlas private key has (a UUID).  The other key is full of characters that change under
+// every encoding - and that make a URL built from it unparsable, which would hide a key that ends up in a request line.
+const atlasPrivPlain = "3f9a1c7e-52b4-4d68-9e0a-7b1c2d3e4f50"
+
+// priv: which of the two private keys a run uses (alternating with the script, so both meet every kind of script).
+func (r *atlasRun) priv() string {
+	if (len(r.Hosts)+r.KeySupply+len(r.Cluster.Au)+len(r.Cluster.Un))%2 == 1 {
+		return atlasPrivPlain
 	}
+	return atlasPriv
+}
+
+// writeTZif writes a version-1 TZif file describing a zone whose UTC offset changes from `before` to `after` seconds at
+// the instant `at`, and returns its path (an absolute path in TZ is read as such a file).
+func writeTZif(path string, at int64, before, after int) string {
+	be32 := func(v int64) []byte { return []byte{byte(v >> 24), byte(v >> 16), byte(v >> 8), byte(v)} }
+	b := append([]byte("TZif"), make([]byte, 16)...)
+	for _, n := range []int64{0, 0, 0, 1, 2, 8} { // isut, isstd, leap, time, type, char counts
+		b = append(b, be32(n)...)
+	}
+	b = append(b, be32(at)...)
+	b = append(b, 1)
+	b = append(b, be32(int64(int32(before)))...)
+	b = append(b, 0, 0)
+	b = append(b, be32(int64(int32(after)))...)
+	b = append(b, 1, 4)
+	b = append(b, []byte("STD\x00DST\x00")...)
+	os.WriteFile(path, b, 0o644)
+	return path
+}
+
+// keyForms: the encodings of the private keys that must never show up anywhere.
+func keyForms() map[string]string {
+	m := map[string]string{}
+	for tag, k := range map[string]string{"": atlasPriv, "plain-key:": atlasPrivPlain} {
+		m[tag+"verbatim"] = k
+		m[tag+"url-encoded"] = url.QueryEscape(k)
+		m[tag+"path-escaped"] = url.PathEscape(k)
+		m[tag+"base64"] = base64.StdEncoding.EncodeToString([]byte(k))
+		m[tag+"base64url"] = base64.URLEncoding.EncodeToString([]byte(k))
+		m[tag+"basic-auth-pair"] = base64.StdEncoding.EncodeToString([]byte(atlasPub + ":" + k))
+		m[tag+"json-escaped"] = strings.Trim(func() string { b, _ := json.Marshal(k); return string(b) }(), `"`)
+	}
+	return m
 }
 
 func findKey(hay string) string {
